@@ -363,3 +363,52 @@ func Replay(e *Env, s *Spec, doc *ReplayDoc, file string) int {
 	fmt.Printf("OK property=%s replay=%s does not fail on the current tree\n", s.ID, file)
 	return 0
 }
+
+// Survey runs the main fan-out of a check and lists every distinct failure key without
+// reproducing or minimising (a development aid; it writes no evidence).
+func Survey(e *Env, s *Spec) int {
+	if err := e.Prepare(s.Variants...); err != nil {
+		fmt.Println("TROUBLE", err)
+		return 2
+	}
+	total, _, err := e.Plan(s.Main, s.ID, s.ExtraArgs...)
+	if err != nil {
+		fmt.Println("TROUBLE", err)
+		return 2
+	}
+	opts := FanOpts{Variant: s.Main, Prop: s.ID, Units: Seq(total), Block: s.Block, BlockWall: s.BlockWall, Extra: s.ExtraArgs, MaxFails: 100000}
+	if s.WorkerEnv != nil {
+		opts.Env = s.WorkerEnv(e)
+	}
+	if s.OnDeath != nil {
+		opts.OnDeath = s.OnDeath(e)
+	}
+	agg, err := e.Fan(opts)
+	if err != nil {
+		fmt.Println("TROUBLE", err)
+	}
+	count := map[string]int{}
+	first := map[string]*Failure{}
+	for _, f := range agg.Fails {
+		count[f.Key()]++
+		if first[f.Key()] == nil {
+			first[f.Key()] = f
+		}
+	}
+	keys := make([]string, 0, len(count))
+	for k := range count {
+		keys = append(keys, k)
+	}
+	sort.Strings(keys)
+	fmt.Printf("units=%d evals=%d steps=%d distinct failure keys=%d\n", agg.Units, agg.Evals, agg.Steps, len(keys))
+	for _, k := range keys {
+		f := first[k]
+		fmt.Printf("%5d x %s\n        %s\n        case: %s\n", count[k], k, tail(f.Detail, 300), tail(string(f.Replay), 400))
+	}
+	for _, k := range agg.SortedCounterKeys() {
+		if strings.HasPrefix(k, "max_") {
+			fmt.Printf("%s=%d\n", k, agg.Counters[k])
+		}
+	}
+	return 0
+}
